@@ -12,7 +12,7 @@ MORE = {
          "instruction loop every successful return passes a flush of what is pending; the compiler turns every TickEnergy into its own instruction. Round 2: the function-entry charge counts declared locals; no function is transformed after the import/type lists were shifted.",
          "must-pass-through analysis on the CFG"),
  "C03": ("Also decided: a node migrated into a newer generation gets a fresh entry slot; every in-place change of a node's value or stem "
-         "is accompanied by clearing its origin on the same path. Round 2: the shared trie is normalised to the caller's generation before any use; child-list changes clear the origin of the same node; every pushed generation carries the recorded checkpoint; persistent originals are reused only if nothing changed; path compression iff no value and one child; in-place value writes only for Entry::Mutable.", "def-use rules through closures"),
+         "is accompanied by clearing its origin on the same path. Round 2: the shared trie is normalised to the caller's generation before any use; child-list changes clear the origin of the same node; every pushed generation carries the recorded checkpoint; persistent originals are reused only if nothing changed; path compression iff no value and one child; in-place value writes only for Entry::Mutable. Round 3: every handle returned by make_fresh_generation follows new_generation (defect fixed in the repository); lookups descend only through make_owned.", "def-use rules through closures"),
  "C04": ("Also decided: migration writes and keeps only references handed out by the target store; every item of the stored, migrated and "
          "serialised node encodings has its own write site and its own enforced read site; tag-byte bits and the inline/indirect boundary "
          "agree between writers and readers; odd stems mask their padding nibble. Round 2: the marked-as-modified and freeze rules are shared with C03 (a changed node that keeps its origin is frozen as its old self); freeze_value reports a freshly created link as changed.", "format item tables with bipartite matching of items to sites"),
@@ -28,7 +28,7 @@ MORE = {
          "validation rules; the validation primitives follow the specification's algorithm; alignment bounds; protocol maxima are inclusive; "
          "segment ends and function indices are bounded exactly; the parser's slice bounds, section order and trailing-data test; header words; "
          "export conditions are all necessary, duplicate and flag-gated imports are refused. Acceptance 'iff well-typed' as a whole, "
-         "termination and runtime bounds safety remain NOT decided. Round 2: every protocol limit is enforced on every accepting path; two-ended input slices are ordered; the validation stacks are shortened only by their primitives.", "typing table of the validator against the WebAssembly validation algorithm"),
+         "termination and runtime bounds safety remain NOT decided. Round 2: every protocol limit is enforced on every accepting path; two-ended input slices are ordered; the validation stacks are shortened only by their primitives. Round 3: permitted import signatures are compared whole (slice equality, is_empty, or a walk under an enforced equality of lengths).", "typing table of the validator against the WebAssembly validation algorithm"),
  "C10": ("Also decided: a failed read inside a length-driven loop leaves the loop; non-exact reads are bounded by the remaining length; the "
          "one-byte enum tag is chosen by the number of variants in both directions; every length prefix is len() of what follows. Round 2: LEB128 big integers are accumulated in arbitrary precision.",
          "loop-enforcement and guard-agreement rules"),
@@ -37,7 +37,7 @@ MORE = {
  "C12": ("Also decided: each chunk-statement vector of the accounting proof is zipped with its own response vector after comparing exactly "
          "those lengths; narrowed-length and equality-polarity sweeps. Round 2: aggregate/combine results derive from both operands; loop-carried weights; verifier transcript entries unconditional.", "zip-length rule"),
  "C13": ("Also decided: every host state field is carried over when the host is saved at an interrupt; the response is written at "
-         "locals_base + return_value_loc. Round 2: suspension rule independent of local names; success responses carry the state-updated bit; pending logs are taken only when the interrupt ends a section; typed item sequences follow iterator-consumer closures.", "conversion coverage"),
+         "locals_base + return_value_loc. Round 2: suspension rule independent of local names; success responses carry the state-updated bit; pending logs are taken only when the interrupt ends a section; typed item sequences follow iterator-consumer closures. Round 3: GlobalInit payloads are parsed at the type they are written at.", "conversion coverage"),
  "C14": ("Also decided: host ABI tables (declared types, tags, dispatch, stack use); every offset-vs-memory-length test is exact for a slice it "
          "guards; range starts of host-side data are constant, clamped or non-strictly compared with a length; ranges clamped with min(.., len) "
          "are ordered by an exact test; any call handed a contract-sized slice of memory is preceded by a charge; the log limit is decided "
